@@ -90,7 +90,7 @@ func NewBW(cfg BCfg) *BW {
 		ChannelBindTimeout: cfg.Chan, PermissionTimeout: cfg.Perm, AllocationLifetime: cfg.Lifetime,
 		AuthHandler: func(ra *turn.RequestAttributes) (string, []byte, bool) {
 			p, ok := vtx.Users[ra.Username]
-			if !ok {
+			if !ok || ra.Realm != vtx.Realm {
 				return "", nil, false
 			}
 
